@@ -160,6 +160,11 @@ func (d *cliDriver) oneCase(seed int64, id int) {
 	defer func() { cmd.VerifNow = nil }()
 
 	nitems := 1 + rnd.Intn(3)
+	delta := lay[0].Step * int64(1+rnd.Intn(3)) // the command's clock advances by delta between files (glob copy)
+	popNow := now
+	if d.prop == "C08" && nitems > 1 {
+		popNow = now + int64(nitems)*delta
+	}
 	nsrc := 1 + rnd.Intn(3)
 	type itemT struct {
 		name string
@@ -178,7 +183,7 @@ func (d *cliDriver) oneCase(seed int64, id int) {
 			}
 			createFile(p, c)
 			if rnd.Intn(8) != 0 {
-				populate(p, c, mp, now, rnd, unit, 2+rnd.Intn(12))
+				populate(p, c, mp, popNow, rnd, unit, 2+rnd.Intn(12))
 			}
 			item.srcs = append(item.srcs, p)
 		}
@@ -317,6 +322,22 @@ func (d *cliDriver) oneCase(seed int64, id int) {
 		}
 		c := &cmd.CopyCommand{SrcBase: e.srcBase, DestBase: e.destBase, AggregationMethod: methodOf(cfg.Method), XFilesFactor: xffFloat(cfg.Xff),
 			ArchiveInfoList: archiveInfoList(cfg), From: from, Until: until, ArchiveID: arch, CopyNaN: cn}
+		var nows []int64
+		if glob {
+			// the wall clock advances while the command works through the files: every file is read at its own instant
+			calls := 0
+			cmd.VerifNow = func() wt.Timestamp {
+				t := now + int64(calls)*delta
+				calls++
+				nows = append(nows, t)
+				return wt.Timestamp(mp.B + t)
+			}
+			if rnd.Intn(2) == 0 {
+				u, until = 0, 0 // default upper bound: "until now", per file
+				base["u"] = u
+			}
+			c.Until = until
+		}
 		if glob {
 			// glob mode: destination is the same relative path under the destination base
 			for _, it := range items {
@@ -340,7 +361,17 @@ func (d *cliDriver) oneCase(seed int64, id int) {
 			if glob && res.Class != "ok" {
 				continue // a failing file stops the glob run; per-file attribution is not defined
 			}
-			line("copy", map[string]interface{}{"ccfg": cfg, "src": pres[i].src, "dst": pres[i].dst, "cn": cn, "k": kclass, "msg": res.Msg, "post": postOf(dp), "glob": glob})
+			ev := map[string]interface{}{"ccfg": cfg, "src": pres[i].src, "dst": pres[i].dst, "cn": cn, "k": kclass, "msg": res.Msg, "glob": glob}
+			if glob && i < len(nows) {
+				ev["now"] = nows[i]
+				e2 := *e
+				e2.now = nows[i]
+				rs, _ := e2.postRecsPath(dp, sel, f, u)
+				ev["post"] = recsJSON(rs, mp)
+			} else {
+				ev["post"] = postOf(dp)
+			}
+			line("copy", ev)
 		}
 	case "C09":
 		if glob {
@@ -412,6 +443,12 @@ func (d *cliDriver) oneCase(seed int64, id int) {
 		it := items[0]
 		pre := snapshot(it.dst, it.dcfg, mp)
 		files := filesOf(it)
+		// what the real sum computes for the same arguments and clock (C11 is relative to it)
+		sc := &cmd.SumCommand{SrcBase: e.srcBase, ItemPattern: "item1", SrcPattern: "s*.wsp", From: from, Until: until, ArchiveID: arch, ShowHeader: false}
+		sres := e.runCmd(sc, &sc.TextOut)
+		sgot, _, _ := parsePointLines(sres.Text, mp)
+		base["sumk"] = sres.Class
+		base["sumrecs"] = recsJSON(sgot, mp)
 		sd := &cmd.SumDiffCommand{SrcBase: e.srcBase, ItemPattern: "item1", SrcPattern: "s*.wsp", DestBase: e.destBase, DestRelPath: "d.wsp", From: from, Until: until, ArchiveID: arch}
 		res := e.runCmd(sd, &sd.TextOut)
 		got, _, err := parsePointLines(res.Text, mp)
